@@ -1000,9 +1000,9 @@ func (b *Builder) finishMethod(m *model.Method, sm *spec.Method) {
 		case fc.Ignore:
 			sm.Doc = append(sm.Doc, "ignore "+n)
 		case fc.Func != nil && fc.Source == "":
-			sm.Doc = append(sm.Doc, fmt.Sprintf("map %s | %s", n, fc.Func.Name))
+			sm.Doc = append(sm.Doc, fmt.Sprintf("map %s | %s", n, b.funcRef(fc.Func.Name)))
 		case fc.Func != nil:
-			sm.Doc = append(sm.Doc, fmt.Sprintf("map %s %s | %s", fc.Source, n, fc.Func.Name))
+			sm.Doc = append(sm.Doc, fmt.Sprintf("map %s %s | %s", fc.Source, n, b.funcRef(fc.Func.Name)))
 		case fc.Source != "":
 			sm.Doc = append(sm.Doc, fmt.Sprintf("map %s %s", fc.Source, n))
 		}
@@ -1525,6 +1525,61 @@ func (b *Builder) StructMethod(name string, depth int) *model.Method {
 	return m
 }
 
+// funcRef spells a reference to a custom function of the converter package: by name, or with
+// the package path in front (the documented [PACKAGE:]FUNC form, resolved by another lookup).
+func (b *Builder) funcRef(name string) string {
+	if b.chance(30, "func-ref-with-package") {
+		b.label("func-ref:package-qualified")
+		return b.Prog.ImportPath(b.C.Key) + ":" + name
+	}
+	return name
+}
+
+// spellExtends renders the extend lines in one of the documented spellings: one line per
+// function, all on one line, package-qualified, or one regular expression matching exactly them.
+func (b *Builder) spellExtends() []string {
+	var names []string
+	for _, l := range b.extendDoc {
+		names = append(names, strings.TrimPrefix(l, "extend "))
+	}
+	if len(names) == 0 {
+		return nil
+	}
+	pkg := b.Prog.ImportPath(b.C.Key) + ":"
+	switch b.draw(5, "extend-spelling") {
+	case 1:
+		b.label("extend-spelling:one-line")
+		return []string{"extend " + strings.Join(names, " ")}
+	case 2:
+		b.label("extend-spelling:package-qualified")
+		var out []string
+		for _, n := range names {
+			out = append(out, "extend "+pkg+n)
+		}
+		return out
+	case 3, 4:
+		// all generated names are Fn<number>: the alternation matches exactly the listed ones
+		// (a pattern that is a literal in disguise, like Fn(1), is looked up by its text)
+		if len(names) < 2 {
+			return b.extendDoc
+		}
+		var nums []string
+		for _, n := range names {
+			if !strings.HasPrefix(n, "Fn") {
+				return b.extendDoc
+			}
+			nums = append(nums, strings.TrimPrefix(n, "Fn"))
+		}
+		b.label("extend-spelling:regexp")
+		re := "Fn(" + strings.Join(nums, "|") + ")"
+		if b.coin("extend-regexp-with-package") {
+			re = pkg + re
+		}
+		return []string{"extend " + re}
+	}
+	return b.extendDoc
+}
+
 // Finish propagates converter-level settings into every method and renders them.
 func (b *Builder) Finish() {
 	for _, m := range b.Conv.Methods {
@@ -1570,7 +1625,7 @@ func (b *Builder) Finish() {
 	if b.ctxRegex {
 		b.SC.Doc = append(b.SC.Doc, "arg:context:regex ^ctx")
 	}
-	b.SC.Doc = append(b.SC.Doc, b.extendDoc...)
+	b.SC.Doc = append(b.SC.Doc, b.spellExtends()...)
 	for i, m := range b.Conv.Methods {
 		sm := b.SC.Methods[i]
 		if m.Settings.MatchIgnoreCase {
@@ -1807,7 +1862,7 @@ func (b *Builder) DefaultMethod(name string, depth int) *model.Method {
 	}
 	f := b.newFunc(fsrc, ft, fsrc != nil)
 	m.Default = f
-	sm := &spec.Method{Name: name, Doc: []string{"default " + f.Name}, Params: []spec.Param{{Name: "source", T: srcT}}, Results: []*spec.T{dstT}}
+	sm := &spec.Method{Name: name, Doc: []string{"default " + b.funcRef(f.Name)}, Params: []spec.Param{{Name: "source", T: srcT}}, Results: []*spec.T{dstT}}
 	for _, c := range b.Ctx {
 		pos := b.draw(len(sm.Params)+1, "ctx-pos")
 		np := append([]spec.Param{}, sm.Params[:pos]...)
